@@ -41,6 +41,7 @@ def check(run, prog, tier):
     run.rule("C18-C", "text importers handle real and complex data alike", minimum=2)
     run.rule("C18-D", "units-managed storage is internal (pickles are unit-context free)", minimum=10)
     run.rule("C18-E", "whole-object save/load go through one parcel format", minimum=4)
+    run.rule("C18-G", "the index of a save directory is rebuilt from the directory on every save", minimum=2)
     run.rule("C18-F", "pickling hooks restore state without recomputing from units- or basis-managed reads", minimum=20)
     rule_A(run, prog)
     rule_B(run, prog)
@@ -48,6 +49,7 @@ def check(run, prog, tier):
     rule_D(run, prog)
     rule_E(run, prog)
     rule_F(run, prog)
+    rule_G(run, prog)
 
 
 def _dispatch(f):
@@ -247,6 +249,46 @@ def rule_D(run, prog):
         def __getattr__(self, name):
             return getattr(self.run, name)
     c05.rule_U5(Proxy(run), prog)
+
+
+def rule_G(run, prog):
+    """savedir() writes the whole tag -> file index back to the directory.  Several objects (and several
+    runs) share a directory, so the index written must be the one just read from that directory plus
+    the new entry: the table that ends up in the index file has to be assigned, unconditionally, from
+    the index file when the directory exists and from an empty table when it was just created.  A
+    copy kept from an earlier save silently drops what others saved in between; loaddir() then no
+    longer returns those objects."""
+    rid = "C18-G"
+    f = prog.func("quantarhei.core.saveable.Saveable.savedir")
+    setc = [c for c in ast.walk(f.node) if isinstance(c, ast.Call) and call_name(c) == "set_content" and c.args]
+    if len(setc) != 1:
+        raise AnalysisError("savedir: the index is not written by exactly one set_content call")
+    table = norm(setc[0].args[0])
+    tries = [n for n in f.node.body if isinstance(n, ast.Try)]
+    mk = [t for t in tries if any(isinstance(c, ast.Call) and call_name(c) == "makedirs" for s_ in t.body for c in ast.walk(s_))]
+    if len(mk) != 1:
+        raise AnalysisError("savedir: try block around os.makedirs not found")
+    t = mk[0]
+    fresh_ok = any(isinstance(s_, ast.Assign) and norm(s_.targets[0]) == table and isinstance(s_.value, (ast.Dict, ast.Call))
+                   and norm(s_.value) in ("{}", "dict()") for s_ in t.body)
+    run.obligation(rid, "Saveable.savedir", fresh_ok, key="new-directory-empty-index",
+                   message="a newly created directory must start from an empty index", loc=f.loc(t))
+    hs = [h for h in t.handlers if h.type is not None and "FileExistsError" in norm(h.type)]
+    ok = False
+    why = "no handler for an existing directory"
+    if hs:
+        top = [s_ for s_ in hs[0].body if isinstance(s_, ast.Assign) and norm(s_.targets[0]) == table
+               and isinstance(s_.value, ast.Call) and call_name(s_.value) == "load_parcel"]
+        ok = len(top) == 1
+        why = "the index %s is not re-read unconditionally from the directory when it exists: %s" % (
+            table, [norm(s_)[:60] for s_ in hs[0].body][:3])
+    run.obligation(rid, "Saveable.savedir", ok, key="existing-directory-index-reread", message=why, loc=f.loc(t),
+                   sample={"table": table})
+    # nothing between the read and the write replaces the table by something else
+    later = [n for n in ast.walk(f.node) if isinstance(n, ast.Assign) and norm(n.targets[0]) == table and n.lineno > t.end_lineno]
+    run.obligation(rid, "Saveable.savedir", not later, key="index-not-replaced",
+                   message="the index read from the directory is replaced before it is written back: %s" % [norm(n)[:50] for n in later],
+                   loc=f.loc())
 
 
 def rule_F(run, prog):
